@@ -498,14 +498,14 @@ def run(ctx):
               ('strict_syspath', 'StrictNoSysPathLeak', dict(pool='quick', dirs=1, depth=1, files=1, gi=1, lines=1))]
     # quick: emission from the 2-directory space (10,752 trees); thorough: from the 3-directory space
     emit_bounds = dict(pool='quick', dirs=2 if quick else 3, depth=2, files=1, gi=1, lines=1)
-    mod = 23 if quick else (97 if reduced else 23)
+    mod = 47 if quick else (97 if reduced else 23)
     wmod = 97 if reduced else 47
     lmod = 3 if quick else 5
     wide_bounds = dict(pool='thorough', dirs=1 if reduced else 2, depth=2, files=1, gi=1, lines=1)
     # with every deviation repaired the full statement is checked, otherwise "modulo the open shapes"
     INV = 'INVARIANT DesignMeetsReference' if all_fixed else 'INVARIANT DesignMeetsReferenceModuloKnown'
     ctx.coverage['main_invariant'] = INV.split()[1]
-    jobs = [('main', INV, 12, main_bounds)]
+    jobs = [('main', INV, 14 if quick else 12, main_bounds)]
     if not quick:
         jobs += [('main_wide', INV, 2, wide_bounds),
                  ('main_lines', INV, 2, dict(pool='thorough', dirs=1, depth=1, files=1, gi=1, lines=2)),
@@ -603,8 +603,8 @@ def run(ctx):
     rng = ctx.rng
     rng.shuffle(cs_dirs)
     rng.shuffle(cs_small)
-    extra = cs_dirs[:60 if quick else (200 if reduced else 1200)] + cs_small[:120 if quick else (200 if reduced else 896)]
-    if len(cs) < (200 if quick else (500 if reduced else 4000)):
+    extra = cs_dirs[:50 if quick else (200 if reduced else 1200)] + cs_small[:80 if quick else (200 if reduced else 896)]
+    if len(cs) < (150 if quick else (500 if reduced else 4000)):
         raise MachineryError('too few cases emitted: %d' % len(cs))
     allcases = [c for _, c in cex_emitted] + cs + extra
     ctx.log('replaying %d TLC trees (x %d queries x 2 listing orders + Script.search)' % (len(allcases), len(allcases[0]['preds'])))
@@ -656,7 +656,7 @@ def run(ctx):
     ctx.coverage['limit_trees_with_more_files_than_limit'] = nlimit_effective
 
     # 5. random larger trees (code -> spec)
-    nrand = 60 if quick else (150 if reduced else 500)
+    nrand = 40 if quick else (150 if reduced else 500)
     ctx.log('driving %d random trees' % nrand)
     rr = jutil.pmap(random_case, [(ctx.tmp, i, ctx.seed * 100003 + i, i % 10 == 9, 24 if quick else 40)
                                   for i in range(nrand)], chunksize=1)
